@@ -104,7 +104,10 @@ def model_flow(prop, tier, replay, *, spec, mods, trace, mc, gens, mutators, ext
     import time
     states = trans = 0
     mccov = {}
-    for (m, c) in mc:
+    for ent in mc:
+        m, c = ent[0], ent[1]
+        if len(ent) > 2 and ((ent[2] == "thorough" and quick) or (ent[2] == "quick" and not quick)):
+            continue
         cfgname = c
         r = vlib.tlc_check(work, m, cfgname, timeout=3000)
         states += r["stats"]["distinct_states"]
@@ -115,19 +118,28 @@ def model_flow(prop, tier, replay, *, spec, mods, trace, mc, gens, mutators, ext
     if missing:
         raise InfraError("vacuous model: actions never taken in any design check: %s" % missing)
     glist = {}
+    todo = []
     for g in gens:
-        label, m, c, mode = g[0], g[1], g[2], g[3]
         o = g[4] if len(g) > 4 else {}
         if o.get("thorough_only") and quick:
             continue
         if o.get("quick_only") and not quick:
             continue
-        b, st, _ = vlib.tlc_generate(work, m, c, work.path("gen_%d.ndjson" % len(glist)), mode=mode,
-                                     num=(o.get("num_quick", 1000) if quick else o.get("num", 20000)),
-                                     depth=o.get("depth", 25), timeout=o.get("timeout", 2400))
+        todo.append((len(todo), g, o))
+
+    def gen_one(item):
+        i, g, o = item
+        return vlib.tlc_generate(work, g[1], g[2], work.path("gen_%d.ndjson" % i), mode=g[3],
+                                 num=(o.get("num_quick", 1000) if quick else o.get("num", 20000)),
+                                 depth=o.get("depth", 25), timeout=o.get("timeout", 2400), sd=vlib.seed() + i)
+    from concurrent.futures import ThreadPoolExecutor
+    with ThreadPoolExecutor(max_workers=6) as ex:
+        outs = list(ex.map(gen_one, todo))
+    for (i, g, o), (b, st, _) in zip(todo, outs):
+        label = g[0]
         b = load_gen(b)
         if quick and o.get("sample") and len(b) > o["sample"]:
-            b = sample(b, o["sample"], len(glist))
+            b = sample(b, o["sample"], i)
             label += " (sample of %d)" % st["states_generated"]
         glist[label] = b
     if extra_behs:
@@ -179,7 +191,7 @@ def model_flow(prop, tier, replay, *, spec, mods, trace, mc, gens, mutators, ext
                 "non-trivial = at least one state-changing call after the first and one compared observation" % spec,
         "samples": [behs[0]["steps"][:6] if behs else [], mid[:10], behs[-1]["steps"][:10] if behs else []],
         "exhaustive": True,
-        "checker_cmd": "tlc %s ; tlc Gen ; harness/drive.py ; tlc %s" % (", ".join(c for _, c in mc), trace[0]),
+        "checker_cmd": "tlc %s ; tlc Gen ; harness/drive.py ; tlc %s" % (", ".join(e[1] for e in mc), trace[0]),
         "trusted_base": ["TLC", "harness/drive.py + %s (ctypes call table)" % mods, "ASan/UBSan runtime"],
         "mc_coverage": mccov,
         "timing_s": {"build": round(tbuild, 1), "drive": round(tdrive, 1), "validate": round(tval, 1)},
